@@ -106,7 +106,8 @@ package dir
 //@   modifies dip.Dcache, dip.blks[*], dirtyinum, wroteinum, abits, op.Atxn.allocBnums, []uint64@alloctxn.AllocTxn.allocBnums, []uint8, buf.Buf.dirty, nfstypes.Entry3, cell:*nfstypes.Entry3, map[string]dcache.Dentry, emitted, emitany, emitlast
 //@   ensures [Fn5-notdir] dip.Kind != 2 ==> result0 == 0 @C02
 //@   assumes [Fn5-lookup] dip.Kind == 2 ==> result0 == dnames[dip.Inum][name]
-//@   assumes [I3-validinum] result0 < 32768 && (result0 != 0 ==> result1 & 127 == 0 && result1 < dip.Size)
+//@   assumes [I3-validinum] result0 < 32768 && (result0 != 0 ==> result1 & 127 == 0 && result1 < dip.Size && liveinum[result0])
+//@   assumes [I6-selfonlydot] result0 != 0 && result0 == dip.Inum ==> len(name) == 1 && name[0] == 46
 //@   ensures dirModsOK(dip, op) && dip.Size == old(dip.Size) && (dip.Kind == 2 ==> dip.Dcache != nil)
 
 //@ spec RemNameDir
